@@ -1,7 +1,7 @@
 """C11 - radix output.
 
-Decided: G - radix range guards of to_radix_be / to_radix_le (panic exactly outside 2..=256), zero -> the single
-digit 0; dispatch by radix class (decimal / other -> repeated division, power of two dividing the digit width -> exact
+Decided: G - radix range guards of to_radix_be / to_radix_le (panic exactly outside 2..=256); dispatch
+by radix class (decimal / other -> repeated division, power of two dividing the digit width -> exact
 bit slicing, other powers of two -> inexact bit slicing); F - signed forms are the unsigned forms on the bit pattern;
 to_radix_be has the same dispatch as to_radix_le (sibling agreement); round-trip side: the string parser's byte-to-digit
 table accepts every digit character the printer can emit (shared with C10); P+/P- - the radix panic is reachable from
@@ -15,8 +15,8 @@ from analysis.guards import PI
 
 PROP = "C11"
 INFO = dict(
-    explanation="Clause decided: radix guards and zero case of the digit-vector printers, the radix-class dispatch, signed == unsigned on the pattern, the parse table accepts all 36 digit characters in both cases; no other panic class.",
-    not_decided="the digit sequences / strings produced by the conversion loops",
+    explanation="Clause decided: radix guards of the digit-vector printers, the radix-class dispatch (one-sided), signed == unsigned on the pattern, the parse table accepts all 36 digit characters in both cases; no other panic class.",
+    not_decided="the digit sequences / strings produced by the conversion loops, including the zero case (vector results are not modelled)",
     assumptions=["P- rows are a may-analysis restricted to API-contract panic classes"],
 )
 
